@@ -76,6 +76,10 @@ func (c *Config) ParseArgs() error {
 	if *logs {
 		ext := path.Ext(c.Output)
 		c.Log = c.Output[0:len(c.Output)-len(ext)] + ".log"
+		if c.Log == c.Output {
+			// The output itself ends in ".log": the log must not take its place.
+			c.Log = c.Output + ".log"
+		}
 	}
 	c.DryRun = *dryRun
 	c.Prints = *prints
